@@ -128,6 +128,10 @@ func simpleMatches(rules []string, requests []string, matchFn ...func(m matcher)
 	if len(filtered) > 0 && filtered[0].reverse {
 		// an inverted list matches exactly the requests the corresponding positive list does not match
 		for _, v := range filtered {
+			if v.value == MatchAll {
+				// "-*": the corresponding positive entry matches everything
+				return false
+			}
 			positive := matcher{false, v.value}
 			for _, request := range requests {
 				if positive.match(request) {
